@@ -208,6 +208,7 @@ def check_simulate(case, rec):
     c = dict(case)
     hourly = [0.0] * 8760 if case.get("zero") else gl.expand(case["loads"])
     ghe, media, coords, hourly = guarded(build.make_ghe, c, hourly=hourly, what="GHE construction")
+    hourly = list(hourly)  # our own copy: the reference must not depend on what the tool does to the list it was given
     method = case["method"]
     with warnings.catch_warnings():
         warnings.simplefilter("ignore")
